@@ -79,7 +79,10 @@ def corr(ctx, prop, n, compare, seed_offset=0, extra=(), label=None):
                 nontrivial += 1
         if r and r is not True:
             sig, desc = r
-            ctx.violation(f"{label}:{sig}", desc, {"case": case, "impl": i, "model": m})
+            if sig.startswith("~"):
+                ctx.brk(f"{label}:{sig[1:]}", desc, {"case": case, "impl": i, "model": m})
+            else:
+                ctx.violation(f"{label}:{sig}", desc, {"case": case, "impl": i, "model": m})
     ctx.coverage.setdefault("streams", {})[label] = dict(stats, distinct=len(distinct), nontrivial=nontrivial)
     ctx.coverage["evaluations"] = ctx.coverage.get("evaluations", 0) + len(lines)
     ctx.coverage["distinct_nontrivial"] = ctx.coverage.get("distinct_nontrivial", 0) + nontrivial
@@ -107,11 +110,11 @@ C02_THEOREMS = ["Acv.C02.clauses_denote", "Acv.C02.count_is_card", "Acv.C02.alt_
 
 def cmp_c02(case, i, m):
     if "error" in m:
-        return ("model-error", "model driver rejected the case: " + m["error"])
+        return ("~model-error", "model driver rejected the case: " + m["error"])
     if i.get("outcome") != "ok":
         return ("impl-" + str(i.get("outcome")), f"path `{case['pathText']}`: real code gave {i.get('outcome')}: {str(i.get('err'))[:200]}")
     if m["values"] != m["implValues"] or m["count"] != m["implCount"]:
-        return ("model-self", "clauses model and denotation disagree (theorem clauses_denote contradicted?)")
+        return ("~model-self", "clauses model and denotation disagree (theorem clauses_denote contradicted?)")
     if i["values"] != m["values"]:
         return ("values", f"path `{case['pathText']}` from {case['focus']}: code reaches {i['values']} but the denotation is {m['values']}")
     if i["count"] != m["count"]:
@@ -150,7 +153,7 @@ C01_THEOREMS = ["Acv.C01.compile_correct", "Acv.C01.dispatch_nonempty", "Acv.C01
 
 def cmp_c01(case, i, m):
     if "error" in m:
-        return ("model-error", "model driver rejected the case: " + m["error"])
+        return ("~model-error", "model driver rejected the case: " + m["error"])
     if i.get("outcome") == "timeout":
         return False    # too slow to evaluate; not counted
     if i.get("outcome") != "ok":
@@ -158,7 +161,7 @@ def cmp_c01(case, i, m):
     real = i["reported"]
     classical = case["stream"] in ("tt", "graphcount")
     if classical and m["reported"] != m["implReported"]:
-        return ("model-self", "DNF model and classical meaning disagree on a classical case (compile_correct contradicted?)")
+        return ("~model-self", "DNF model and classical meaning disagree on a classical case (compile_correct contradicted?)")
     if classical and real != m["reported"]:
         extra = sorted(set(real) - set(m["reported"]))[:4]
         missing = sorted(set(m["reported"]) - set(real))[:4]
@@ -166,7 +169,7 @@ def cmp_c01(case, i, m):
     if real != m["implReported"]:
         extra = sorted(set(real) - set(m["implReported"]))[:4]
         missing = sorted(set(m["implReported"]) - set(real))[:4]
-        return ("correspondence", f"{case['stream']}: real verdicts differ from the translator model: only real {extra}, only model {missing}")
+        return ("~correspondence", f"{case['stream']}: real verdicts differ from the translator model: only real {extra}, only model {missing}")
     return None
 
 
@@ -198,7 +201,7 @@ def check_C01(ctx):
 
 def cmp_pipe(case, i, m):
     if "error" in m:
-        return ("model-error", "model driver rejected the case: " + m["error"])
+        return ("~model-error", "model driver rejected the case: " + m["error"])
     if i.get("outcome") in ("setup-failed", "timeout", "badcase"):
         return ("impl-" + i["outcome"], f"{case['scenario']}: harness could not run the case: {i.get('err')}")
     diffs = []
@@ -263,7 +266,7 @@ def pipe_stream(ctx, pid, full=False):
             n_bad += 1
         r = cmp_pipe(case, i, m)
         if r:
-            ctx.violation(f"pipe-corr:{r[0]}:{case['scenario']}:{case['entry']}", "skeleton correspondence: " + r[1], {"case": case, "impl": i, "model": m})
+            ctx.brk(f"pipe-corr:{r[0]}:{case['scenario']}:{case['entry']}", "skeleton correspondence: " + r[1], {"case": case, "impl": i, "model": m})
             n_bad += 1
     ctx.coverage.setdefault("streams", {})["pipe"] = {"cases": len(lines), "by_kind": scen}
     ctx.coverage["evaluations"] = ctx.coverage.get("evaluations", 0) + len(lines)
@@ -406,7 +409,7 @@ C03_FIELDS = ("conforms", "profileName", "hasResult", "dateCreated", "results", 
 
 def cmp_c03(case, i, m):
     if "error" in m:
-        return ("model-error", "model driver rejected the case: " + m["error"])
+        return ("~model-error", "model driver rejected the case: " + m["error"])
     if i.get("outcome") != "ok":
         return ("impl-" + str(i.get("outcome")), f"profile with levels {case['levels']}: real code gave {i.get('outcome')}: {str(i.get('err'))[:200]}")
     # the property itself, on the real report
@@ -516,7 +519,7 @@ C16_THEOREMS = ["Acv.C16.doc_eq_table", "Acv.C16.accepts_whole", "Acv.C16.runSta
 
 def cmp_c16(case, i, m):
     if "error" in m:
-        return ("model-error", "model driver rejected the case: " + m["error"])
+        return ("~model-error", "model driver rejected the case: " + m["error"])
     if i.get("result") == "PANIC":
         return ("panic", f"ParsePath({case['text']!r}) panicked: {str(i.get('err'))[:150]}")
     if i.get("result") != m.get("result"):
@@ -559,16 +562,16 @@ C13_MESSAGE_THEOREMS = ["Acv.C13.parse_lengths", "Acv.C13.message_render", "Acv.
 
 def cmp_c13(case, i, m):
     if "error" in m:
-        return ("model-error", "model driver rejected the case: " + m["error"])
+        return ("~model-error", "model driver rejected the case: " + m["error"])
     if i.get("quoted") != m.get("quoted"):
         bad = [k for k in m["quoted"] if i["quoted"].get(k) != m["quoted"][k]]
-        return ("quote", f"RegoString({bad[0]!r}) = {i['quoted'].get(bad[0])!r} but the proved quoting function gives {m['quoted'][bad[0]]!r}")
+        return ("~quote", f"RegoString({bad[0]!r}) = {i['quoted'].get(bad[0])!r} but the proved quoting function gives {m['quoted'][bad[0]]!r}")
     if not i.get("engineLexesBack"):
         return ("engine-lex", "the engine's own lexer does not read a quoted literal back to the original string")
     if i.get("msgFormat") != m.get("msgFormat") or i.get("msgVars") != m.get("msgVars"):
-        return ("message-parse", f"ParseMessageExpression({case['message']!r}) = ({i.get('msgFormat')!r}, {i.get('msgVars')}) but the model gives ({m.get('msgFormat')!r}, {m.get('msgVars')})")
+        return ("~message-parse", f"ParseMessageExpression({case['message']!r}) = ({i.get('msgFormat')!r}, {i.get('msgVars')}) but the model gives ({m.get('msgFormat')!r}, {m.get('msgVars')})")
     if m["message"] != m["messageViaPolicy"]:
-        return ("model-self", "message model: policy-side rendering differs from the specification (message_render contradicted?)")
+        return ("~model-self", "message model: policy-side rendering differs from the specification (message_render contradicted?)")
     if i.get("outcome") != "ok":
         return ("compile", f"profile name {case['name']!r}, validation {case['vname']!r}, message {case['message']!r}, list {case['listvals']}: {i.get('outcome')}: {str(i.get('err'))[:200]}")
     if i["profileName"] != m["profileName"]:
@@ -714,7 +717,10 @@ def check_C12(ctx):
                         break
             if desc:
                 bad += 1
-                ctx.violation("C12:" + desc[0], desc[1], {"case": {k: case[k] for k in case if k != "data"}, "report": doc})
+                if desc[0] in ("shape", "ids", "model-error"):
+                    ctx.brk("C12:" + desc[0], desc[1], {"case": {k: case[k] for k in case if k != "data"}, "report": doc})
+                else:
+                    ctx.violation("C12:" + desc[0], desc[1], {"case": {k: case[k] for k in case if k != "data"}, "report": doc})
         ctx.coverage.setdefault("streams", {})["c12"] = dict(stats, reports=len(keep))
         ctx.coverage["evaluations"] = len(lines)
         ctx.coverage["distinct_nontrivial"] = sum(1 for (_, _, _, rs) in keep if rs)
@@ -739,7 +745,7 @@ C14_THEOREMS = ["Acv.C14.readNat_showNat", "Acv.C14.showNat_digits", "Acv.C14.di
 
 def cmp_c14(case, i, m):
     if "error" in m:
-        return ("model-error", "model driver rejected the case: " + m["error"])
+        return ("~model-error", "model driver rejected the case: " + m["error"])
     if i.get("outcome") != "ok":
         return ("impl-" + str(i.get("outcome")), f"real code gave {i.get('outcome')}: {str(i.get('err'))[:200]}")
     for t in case["targets"]:
@@ -871,27 +877,32 @@ def check_C06(ctx):
                     fixtures.append(json.dumps({"op": "c06", "id": 1000 + len(fixtures), "profile": open(pf).read(), "data": open(df).read()}))
         payload = "\n".join(lines + fixtures) + "\n"
         import concurrent.futures
-        def one(_):
-            p = subprocess.run([ACVH, "oneshot"], input=payload, capture_output=True, text=True, timeout=3600)
-            return [l for l in p.stdout.split("\n") if l.strip()]
+        def one(k):
+            # even runs: same order (generated code AND report must coincide); odd runs: a permuted history with every
+            # case twice (reports must still coincide: a report may not depend on what the process did before)
+            args = [ACVH, "oneshot"] + ([str(1000 + k)] if k % 2 == 1 else [])
+            p = subprocess.run(args, input=payload, capture_output=True, text=True, timeout=3600)
+            return [json.loads(l) for l in p.stdout.split("\n") if l.strip()]
         with concurrent.futures.ThreadPoolExecutor(max_workers=16) as ex:
             outs = list(ex.map(one, range(runs)))
         cases = [json.loads(l) for l in lines + fixtures]
         bad = 0
-        for k, case in enumerate(cases):
-            vals = {}
+        for case in cases:
+            gens, vals = {}, {}
             for r, o in enumerate(outs):
-                if k >= len(o):
+                recs = [x for x in o if x.get("id") == case["id"]]
+                if not recs:
                     vals.setdefault("<missing>", []).append(r)
-                    continue
-                rec = json.loads(o[k])
-                vals.setdefault((rec.get("generate"), rec.get("validate"), rec.get("panic")), []).append(r)
-            if len(vals) > 1:
+                for rec in recs:
+                    vals.setdefault((rec.get("validate"), rec.get("panic")), []).append(r)
+                    if r % 2 == 0:
+                        gens.setdefault(rec.get("generate"), []).append(r)
+            if len(vals) > 1 or len(gens) > 1:
                 bad += 1
-                gens = {v[0] for v in vals if isinstance(v, tuple)}
-                what = "generated Rego" if len(gens) > 1 else "report"
-                ctx.violation(f"C06:nondeterministic-{what.split()[0]}", f"{len(vals)} different {what}s for the same profile/data in {runs} fresh processes (case {case['id']})",
-                              {"case": case, "distinct_outputs": [{"hashes": list(k2) if isinstance(k2, tuple) else k2, "runs": v} for k2, v in vals.items()]})
+                what = "report" if len(vals) > 1 else "generated Rego"
+                hist = "in fresh processes running the same calls in the same order" if len(gens) > 1 else "depending on which other profiles the process handled before (permuted histories)"
+                ctx.violation(f"C06:nondeterministic-{what.split()[0]}", f"{max(len(vals), len(gens))} different {what}s for the same profile/data/configuration/clock {hist} (case {case['id']})",
+                              {"case": case, "distinct_reports": [{"hash": str(k2), "runs": v} for k2, v in vals.items()], "distinct_generated": [{"hash": str(k2), "runs": v} for k2, v in gens.items()]})
         ctx.coverage.setdefault("streams", {})["fresh-processes"] = {"cases": len(cases), "processes": runs, "generated": len(lines), "fixtures": len(fixtures)}
         ctx.coverage["evaluations"] = len(cases) * runs
         ctx.coverage["distinct_nontrivial"] = len(cases)
@@ -915,14 +926,14 @@ C08_THEOREMS = ["Acv.C08.forbidden_denied", "Acv.C08.denied_exist", "Acv.C08.for
 
 def cmp_c08(case, i, m):
     if "error" in m:
-        return ("model-error", "model driver rejected the case: " + m["error"])
+        return ("~model-error", "model driver rejected the case: " + m["error"])
     where = f"{case['builtin']} at position {case['position']} ({case['syntax']})"
     if i.get("outcome") == "panic":
         return ("panic", f"{where}: CompileProfile panicked: {str(i.get('err'))[:150]}")
     if m["forbidden"] and not i.get("unsafeRejected"):
         return ("forbidden-accepted:" + case["builtin"], f"{where}: the profile was {'ACCEPTED' if i.get('outcome') == 'accepted' else 'rejected for another reason: ' + str(i.get('err'))[:120]} - a forbidden built-in must be rejected by the deny-list")
     if bool(i.get("unsafeRejected")) != m["denied"]:
-        return ("deny-list-mismatch:" + case["builtin"], f"{where}: rejected-as-unsafe={i.get('unsafeRejected')} but on the regenerated deny-list={m['denied']}")
+        return ("~deny-list-mismatch:" + case["builtin"], f"{where}: rejected-as-unsafe={i.get('unsafeRejected')} but on the regenerated deny-list={m['denied']}")
     return None
 
 
@@ -1048,7 +1059,11 @@ def check_C05(ctx):
                         desc = ("model-self", "norm(ser g c) is not the canonical index of the graph (norm_ser contradicted?)")
                 if desc:
                     bad += 1
-                    ctx.violation("C05:" + desc[0] + ":" + d["form"], desc[1], {"graph": case["graph"], "doc": d, "flat": case["docs"][0], "impl": di, "impl_flat": base, "model": dm, "profiles": case["profiles"]})
+                    payload = {"graph": case["graph"], "doc": d, "flat": case["docs"][0], "impl": di, "impl_flat": base, "model": dm, "profiles": case["profiles"]}
+                    if desc[0].startswith("model-"):
+                        ctx.brk("C05:" + desc[0] + ":" + d["form"], desc[1], payload)
+                    else:
+                        ctx.violation("C05:" + desc[0] + ":" + d["form"], desc[1], payload)
         ctx.coverage.setdefault("streams", {})["c05"] = {"graphs": len(lines), "documents": ndocs, "in_model_fragment": frag, "forms": forms}
         ctx.coverage["evaluations"] = ndocs
         ctx.coverage["distinct_nontrivial"] = ndocs - len(lines)
@@ -1072,7 +1087,7 @@ C15_THEOREMS = ["Acv.C15.expand_rename", "Acv.C15.expand_total_on_grammar", "Acv
 
 def cmp_c15(case, i, m):
     if "error" in m:
-        return ("model-error", "model driver rejected the case: " + m["error"])
+        return ("~model-error", "model driver rejected the case: " + m["error"])
     for k, what in (("a", "canonical spelling"), ("b", "reordered/restyled spelling"), ("c", "spelling with renamed and mixed prefixes")):
         if i[k].get("outcome") == "timeout":
             return False
@@ -1084,7 +1099,7 @@ def cmp_c15(case, i, m):
             only_k = sorted(set(i[k]["results"]) - set(i["a"]["results"]))[:3]
             return ("rewrite-changes-verdict:" + k, f"{what} changed the results: only before {only_a}, only after {only_k}")
     if i["a"]["pairs"] != m["implReported"]:
-        return ("correspondence", "real verdicts differ from the translator model")
+        return ("~correspondence", "real verdicts differ from the translator model")
     if case["stream"] == "graphcount" and i["a"]["pairs"] != m["reported"]:
         return ("verdict", "real verdicts differ from 'target and not formula'")
     return None
